@@ -11,7 +11,9 @@
 (*          n], [k |-> "boxed", cls]                                          *)
 (* Values: [c |-> constructor name, f |-> field values]; an optional field    *)
 (* is <<>> when absent and <<v>> when present; integers are TonBits big       *)
-(* integers, Bool 0/1, byte-like values byte sequences, vectors sequences.    *)
+(* integers, Bool 0/1, text and int128/int256 byte sequences, vectors         *)
+(* sequences; a bytes value is [raw |-> bytes] or [obj |-> boxed values] (a   *)
+(* bytes field that carries serialised TL objects, as ADNL queries do).       *)
 EXTENDS TonBits, TonCrc
 CONSTANT Schemas
 
@@ -61,7 +63,9 @@ EncT(t, v) ==
       [] t.k = "nat"  -> LEInt(v, 4, FALSE)
       [] t.k = "Bool" -> IF v = 1 THEN BoolTrue ELSE BoolFalse
       [] t.k \in {"int128", "int256"} -> v
-      [] t.k \in {"bytes", "string"} -> Frame(v)
+      [] t.k = "string" -> Frame(v)
+      \* a bytes value is raw bytes or holds boxed objects (one or several, concatenated): what travels is their serialisation
+      [] t.k = "bytes" -> Frame(IF "obj" \in DOMAIN v THEN Flat([i \in 1..Len(v.obj) |-> EncC(v.obj[i].c, v.obj[i], TRUE)]) ELSE v.raw)
       [] t.k = "true" -> <<>>
       [] t.k = "vector" -> LE(Len(v), 4) \o Flat([i \in 1..Len(v) |-> EncT(t.of, v[i])])
       [] t.k = "bare" -> EncC(t.n, v, FALSE)
@@ -83,7 +87,10 @@ WfT(t, v) ==
       [] t.k = "Bool" -> v \in {0, 1}
       [] t.k = "int128" -> Len(v) = 16
       [] t.k = "int256" -> Len(v) = 32
-      [] t.k \in {"bytes", "string"} -> Len(v) < 16777216
+      [] t.k = "string" -> Len(v) < 16777216
+      [] t.k = "bytes" -> IF "obj" \in DOMAIN v
+                          THEN Len(v.obj) >= 1 /\ \A i \in 1..Len(v.obj) : v.obj[i].c \in DOMAIN ByName /\ WfC(v.obj[i].c, v.obj[i])
+                          ELSE Len(v.raw) < 16777216
       [] t.k = "true" -> v = 1
       [] t.k = "vector" -> \A i \in 1..Len(v) : WfT(t.of, v[i])
       [] t.k = "bare" -> v.c = t.n /\ WfC(t.n, v)
